@@ -701,6 +701,16 @@ func (r *Runner) DeadCalls(n int, expiring bool) {
 		}
 		cancel()
 	}
+	// whatever a dead-context Publish got through is dispatched before the script goes on
+	allReading := true
+	for _, s := range r.Subs {
+		if s.Subscribed && s.paused {
+			allReading = false
+		}
+	}
+	if allReading {
+		r.Quiesce("after calls with ended contexts")
+	}
 	r.WaitLoopIdle()
 	if n, ok := r.statsSubs(); ok && n != r.nsubscribed {
 		r.fail("C08:Subscribe:ghost", "the event loop holds %d subscriptions, but only %d Subscribe calls returned a channel that is still subscribed (a Subscribe that returned nil registered its channel)", n, r.nsubscribed)
